@@ -1,8 +1,10 @@
 package props
 
 import (
+	"bufio"
 	"bytes"
 	"fmt"
+	"io"
 	"math/rand"
 	"testing"
 
@@ -79,6 +81,28 @@ func checkVarint(r *mon.Run, x uint64) {
 	}
 	if v3, n3, err3 := tls.VerifVarintRead(want); err3 != nil || v3 != x || n3 != len(want) {
 		viol("varint_read_of_reference", fmt.Sprintf("Read(%x)=(%#x,%d,%v), want %#x", want, v3, n3, err3, x))
+	}
+	// the decoder is handed an io.ByteReader: whatever else the source implements and however
+	// it delivers its bytes (one at a time, short reads, a buffer boundary in the middle of
+	// the varint), the value and the number of bytes consumed are the same
+	for _, enc := range [][]byte{want, tls.VerifVarintAppendWithLen(nil, x, 8)} {
+		for _, pre := range []int{0, 13, 15} {
+			stream := append(append(bytes.Repeat([]byte{0x01}, pre), enc...), 0x25, 0x26)
+			for si, mk := range varintSources {
+				src, rest := mk(stream)
+				ok := true
+				for k := 0; k < pre; k++ {
+					if v, err := tls.VerifVarintReadFrom(src); err != nil || v != 1 {
+						ok = false
+					}
+				}
+				v, err := tls.VerifVarintReadFrom(src)
+				v2, err2 := tls.VerifVarintReadFrom(src) // the next entry starts right behind
+				if !ok || err != nil || v != x || err2 != nil || v2 != 0x25 || rest() != 1 {
+					viol("varint_read_depends_on_source", fmt.Sprintf("Read of %x at offset %d from source %d: (%#x,%v), next entry (%#x,%v), %d bytes left; want %#x then 0x25 and 1 byte left", enc, pre, si, v, err, v2, err2, rest(), x))
+				}
+			}
+		}
 	}
 	// AppendWithLen for every width
 	min := wire.VarintLen(x)
@@ -282,4 +306,43 @@ func TestC24(t *testing.T) {
 	}
 	r.Count("tp_lists", int64(lists))
 	r.Assume("values in the 4- and 8-byte classes are sampled (boundaries, powers of two, uniform draws), not enumerated")
+}
+
+// byteOnly implements io.ByteReader and nothing else.
+type byteOnly struct{ r *bytes.Reader }
+
+func (b byteOnly) ReadByte() (byte, error) { return b.r.ReadByte() }
+
+// dribble implements io.Reader and io.ByteReader; Read delivers at most n bytes per call
+// (a legal short read).
+type dribble struct {
+	r *bytes.Reader
+	n int
+}
+
+func (d dribble) ReadByte() (byte, error) { return d.r.ReadByte() }
+func (d dribble) Read(p []byte) (int, error) {
+	if len(p) > d.n {
+		p = p[:d.n]
+	}
+	return d.r.Read(p)
+}
+
+// varintSources: each returns an io.ByteReader over the stream and a function reporting how
+// many bytes of the stream have not been consumed through it yet.
+var varintSources = []func(b []byte) (io.ByteReader, func() int){
+	func(b []byte) (io.ByteReader, func() int) { r := bytes.NewReader(b); return r, r.Len },
+	func(b []byte) (io.ByteReader, func() int) { r := bytes.NewReader(b); return byteOnly{r}, r.Len },
+	func(b []byte) (io.ByteReader, func() int) { r := bytes.NewReader(b); return dribble{r, 1}, r.Len },
+	func(b []byte) (io.ByteReader, func() int) { r := bytes.NewReader(b); return dribble{r, 3}, r.Len },
+	func(b []byte) (io.ByteReader, func() int) {
+		r := bytes.NewReader(b)
+		br := bufio.NewReaderSize(dribble{r, 5}, 16)
+		return br, func() int { return r.Len() + br.Buffered() }
+	},
+	func(b []byte) (io.ByteReader, func() int) {
+		r := bytes.NewReader(b)
+		br := bufio.NewReaderSize(r, 16)
+		return br, func() int { return r.Len() + br.Buffered() }
+	},
 }
